@@ -8,13 +8,17 @@ ROOT = os.path.dirname(os.path.dirname(os.path.abspath(__file__)))
 sys.path.insert(0, ROOT)
 
 
+SLOW = {"C27": 2, "C13": 3, "C28": 2}
+
+
 def digests(props, seeds, base):
     from sim import boot; boot.boot()
     from sim.tape import Tape, derive_seed
     from sim import runner
     out = {}
     for p in props:
-        for i in range(seeds):
+        # properties whose single run is itself an enumeration (tens of simulations) get fewer seeds in this smoke test
+        for i in range(min(seeds, SLOW.get(p, seeds))):
             res = runner.run_one(p, Tape(derive_seed(base, p, i)))
             out[f"{p}:{i}"] = res.get("digest") or ("HARNESS:" + str(res.get("harness")))
     return out
